@@ -12,7 +12,10 @@ PLAN = dict(
           "database (also named like packages), the empty database; the yielded packages, their "
           "pkgname/pkgbase/pkgversion and read_metadata for all 14 entries are compared with what was "
           "written. Further cases: open on a missing path and on a plain file; the MetadataEntry <-> file "
-          "name table both ways against the harness' own table plus near-miss and one-edit names; "
+          "name table both ways against the harness' own table plus near-miss and one-edit names, and each of the "
+          "14 names with 20 dictionary prefixes (./ / ../ dir/ foo-1.0/ blank tab BOM + ...), 20 suffixes (.gz / "
+          ".orig ~ .bak blank newline CR NUL ...), every prefix x suffix pair and whole-name respellings (lower / "
+          "title case, no '+', '-' or nothing for '_', doubled) - none may map to an entry; "
           "Metadata::is_valid over all 8 empty/non-empty combinations of comment/contents/desc. "
           "Non-trivial = a tree with an incomplete directory or a complete one with >= 2 dashes, the table "
           "case, every is_valid case; distinct by 64-bit fingerprint of names/masks or texts."),
